@@ -127,7 +127,7 @@ def generate(ctx):
         if ctx.rng.random() < 0.25:
             cfg["gamma"] = "boom"  # the application's callback fails for some games (teams of five), in the middle of rate
         yield "fb", dict(model=m, cfg=cfg, players=ctx.rng.randint(6, 14), steps=ctx.rng.randint(10, 40 if ctx.tier == "quick" else 120),
-                         seed=ctx.rng.randrange(2 ** 31))
+                         seed=ctx.rng.randrange(2 ** 31), app_types=ctx.rng.random() < 0.25)
     for _ in range(ctx.budget(40, 2400)):
         m = ctx.rng.choice(MODEL_NAMES)
         cfg = gen.gen_cfg(ctx.rng)
@@ -469,6 +469,15 @@ def probe_fb(ctx, payload):
     beta = cfg["beta"]
     pool = [model.rating(rng.gauss(6 * beta, 2 * beta), abs(rng.gauss(2 * beta, 0.5 * beta)) + 0.05 * beta, f"F{i}")
             for i in range(payload["players"])]
+    if payload.get("app_types"):
+        # the persistent objects are instances of application-side subclasses of the rating class (plain subclass, own
+        # constructor signature, ORM-style entity with identity hashing): what is remembered per object or per line-up
+        # must follow their CURRENT values
+        from ..util import make_sub
+
+        RC = type(pool[0])
+        pool = [make_sub(RC, i % 3, p.mu, p.sigma, p.name) if i % 4 else p for i, p in enumerate(pool)]
+        ctx.bucket("feedback_app_types", "subclass instances")
     prev_call = None
     after_fail = False
     for step in range(payload["steps"]):
